@@ -10,8 +10,8 @@
    any length) and literal argument tuples / dicts / scalars of any size. *)
 From Coq Require Import ZArith List Bool NArith.
 Import ListNotations.
-Require Import PV.Gen.FormatRe PV.Format.Percent PV.Format.PyPercent PV.Format.Guards PV.Format.StrFormat PV.Format.FormatEval.
-Require Import PV.Proofs.FormatPins PV.Proofs.FormatConv PV.Proofs.FormatPercent PV.Proofs.FormatStr PV.Proofs.FormatScan PV.Proofs.FormatEvalProofs.
+Require Import PV.Gen.FormatRe PV.Gen.FormatAccept PV.Format.Percent PV.Format.PyPercent PV.Format.Guards PV.Format.StrFormat PV.Format.FormatEval PV.Format.Typed.
+Require Import PV.Proofs.FormatPins PV.Proofs.FormatConv PV.Proofs.FormatPercent PV.Proofs.FormatStr PV.Proofs.FormatScan PV.Proofs.FormatEvalProofs PV.Proofs.FormatGen PV.Proofs.FormatTyped.
 
 (* the regex text / flags / conversion sets / %c range the scanner model was written for *)
 Theorem C17_regex_pinned : regex_text = expected_regex_text /\ regex_flags = [2; 1]%N.
@@ -298,3 +298,98 @@ Theorem C17_format_full_refuted :
   (eval_fields a2 [f2] AInit 0 = VR /\ pa_fields_check (flatten_tfield f2) 1 [] = [] /\ tfield_plain f2 = false).
 Proof. exact format_full_refuted. Qed.
 Print Assumptions C17_format_full_refuted.
+
+(* ------------------------------------------------------------------ phase 3 *)
+(* the regex-scanner model is total (finditer needs at most 2*length+2 matches) *)
+Theorem C17_pa_scan_total : forall is_bytes t, exists specs pieces, pa_scan is_bytes t = Some (specs, pieces).
+Proof. exact pa_scan_total. Qed.
+Print Assumptions C17_pa_scan_total.
+
+(* a template without '(' has no mapping key *)
+Theorem C17_fragment_no_mapping : forall is_bytes t specs pieces,
+  frag is_bytes t = true -> pa_scan is_bytes t = Some (specs, pieces) -> needs_mapping specs = false.
+Proof. exact fragment_no_mapping. Qed.
+Print Assumptions C17_fragment_no_mapping.
+
+(* hence on the fragment: CPython raises ==> reported, for every template (characters)
+   and every literal argument; the only clause left is numeric overflow *)
+Theorem C17_percent_fragment_raise_reported_total : forall is_bytes t a,
+  frag is_bytes t = true ->
+  exists specs pieces, pa_scan is_bytes t = Some (specs, pieces) /\
+    (overflow_clause specs a = false ->
+     py_raises_chars is_bytes t a = Some true -> pa_reports_chars is_bytes t a = Some true).
+Proof. exact percent_fragment_raise_reported_total. Qed.
+Print Assumptions C17_percent_fragment_raise_reported_total.
+
+(* the functions translated from format_strings.py on this run are the model *)
+Theorem C17_gen_accept_is_model : forall is_bytes t o,
+  gen_accept is_bytes t (view_of_obj o) = type_accept is_bytes t o.
+Proof. exact gen_accept_is_model. Qed.
+Print Assumptions C17_gen_accept_is_model.
+
+Theorem C17_gen_star_is_model : forall o,
+  gen_star_accept (view_of_obj o) = (if int_like o then [] else [EStar]).
+Proof. exact gen_star_is_model. Qed.
+Print Assumptions C17_gen_star_is_model.
+
+Theorem C17_gen_lint_is_model : forall is_bytes nm cs,
+  spec_lint is_bytes nm cs =
+  gen_spec_lint is_bytes cs ++
+  (if nm && negb (c_type cs =? ch_pct)%N
+      && (negb (is_some (c_key cs)) || is_star (c_prec cs) || is_star (c_width cs))
+   then [LCombine] else []).
+Proof. exact gen_lint_is_model. Qed.
+Print Assumptions C17_gen_lint_is_model.
+
+(* typed (non-literal) arguments, key-less templates, tuples of any length.
+   Soundness: a reported conversion error names an alternative [a] of the argument
+   at position [i] such that CPython raises for EVERY run-time member of [a],
+   whatever the other arguments are *)
+Theorem C17_typed_report_sound : forall is_bytes specs (l : list uval),
+  needs_mapping specs = false -> pa_lint is_bytes specs 0 = [] ->
+  zip_accept_u is_bytes (serial_specifiers specs) l <> [] ->
+  exists i u a, nth_error l i = Some u /\ In a u /\
+    forall os o, nth_error os i = Some o -> conc a o -> norange is_bytes a ->
+      py_raises is_bytes specs (ATuple os) = true.
+Proof. exact typed_report_sound. Qed.
+Print Assumptions C17_typed_report_sound.
+
+Theorem C17_typed_arity_sound : forall is_bytes specs os,
+  needs_mapping specs = false -> pa_lint is_bytes specs 0 = [] ->
+  length os <> length (serial_specifiers specs) ->
+  py_raises is_bytes specs (ATuple os) = true.
+Proof. exact typed_arity_sound. Qed.
+Print Assumptions C17_typed_arity_sound.
+
+(* Completeness: wrong arity, or an alternative all of whose run-time members fail
+   the conversion  ==>  reported *)
+Theorem C17_typed_raise_reported : forall is_bytes specs (l : list uval),
+  (length l <> length (serial_specifiers specs) \/
+   exists i s u a, nth_error (serial_specifiers specs) i = Some s /\ nth_error l i = Some u /\ In a u /\
+                   complete_guard is_bytes s a /\
+                   forall o, conc a o -> serial_ok is_bytes s o = false) ->
+  accept_tuple_typed is_bytes specs (TTuple l) <> [].
+Proof. exact typed_raise_reported. Qed.
+Print Assumptions C17_typed_raise_reported.
+
+Theorem C17_typed_of_literals : forall is_bytes ss os,
+  zip_accept_u is_bytes ss (map (fun o => [AK o]) os) = zip_accept is_bytes ss os.
+Proof. exact typed_of_literals. Qed.
+Print Assumptions C17_typed_of_literals.
+
+Example C17_typed_examples :
+  accept_tuple_typed false [bare 100; bare 115] (TTuple [[AT TyInt; AT TyStr]; [AT TyAny]]) = [ENumeric] /\
+  accept_tuple_typed false [bare 99] (TTuple [[AT TyInt]]) = [] /\
+  accept_tuple_typed false [bare 120] (TScalar (AT TyFloat)) = [EInteger] /\
+  accept_tuple_typed false [mk_cspec 100 None None FStar FNone None] (TTuple [[AT TyFloat; AT TyStr]; [AT TyBool]]) = [EStar] /\
+  accept_tuple_typed false [bare 100] TOpaque = [].
+Proof. exact typed_examples. Qed.
+Print Assumptions C17_typed_examples.
+
+(* an f-string replacement field with a literal operand is the str.format field
+   "{0<conv>:<spec>}" applied to it: same verdict *)
+Theorem C17_fstring_field_is_format_field : forall o conv spec,
+  eval_fields (mk_fargs [o] []) [mk_tf (ANum 0) [] conv (map SLit spec)] AInit 0 =
+  check_spec (apply_conv o conv) spec.
+Proof. exact fstring_field_is_format_field. Qed.
+Print Assumptions C17_fstring_field_is_format_field.
